@@ -78,9 +78,11 @@ Definition touches (s : step) (p : path) : bool :=
   | STrunc q | SCorrupt q | SUnlink q _ => path_eqb p q
   | SAppendSh n e _ =>
       match p with PFile (Shank k e') FBin => (k <? n)%nat && etype_eqb e e' | _ => false end
+  | SAppendSub sub e _ =>
+      match p with PFile (Shank k e') FBin => mem k sub && etype_eqb e e' | _ => false end
   | SAppend21 _ => path_eqb p (PFile Lf21 FBin)
   | SWriteMeta o => path_eqb p (PFile o FMeta)
-  | SVerify _ | SCheckBegin => false
+  | SVerify _ | SVerifyS _ _ | SCheckBegin => false
   | SCompBegin o => path_eqb p (PFile o FTmp)
   | SCompEnd o => path_eqb p (PFile o FTmp) || path_eqb p (PFile o FChTmp)
   | SRenameCh o => path_eqb p (PFile o FChTmp) || path_eqb p (PFile o FCh)
@@ -106,11 +108,14 @@ Proof.
   - destruct (dir_ok _ _); inversion H; subst; cbn. unfold upd. rewrite Ht. reflexivity.
   - inversion H; subst; cbn. destruct p as [k|o f]; [reflexivity|].
     destruct o as [| |k e']; try reflexivity. destruct f; try reflexivity. rewrite Ht. reflexivity.
+  - inversion H; subst; cbn. destruct p as [k|o f]; [reflexivity|].
+    destruct o as [| |k e']; try reflexivity. destruct f; try reflexivity. rewrite Ht. reflexivity.
   - inversion H; subst; cbn. unfold upd. rewrite Ht. reflexivity.
   - destruct (present _ _); inversion H; subst; cbn. unfold upd. rewrite Ht. reflexivity.
   - destruct (present _ _); inversion H; subst; cbn; [|reflexivity]. unfold upd. rewrite Ht. reflexivity.
   - inversion H; subst; reflexivity.
   - destruct (all_ap_complete _ _); inversion H; subst; reflexivity.
+  - destruct (verify_cover _ _ _); inversion H; subst; reflexivity.
   - eapply unlink_frame; eauto.
   - destruct (present _ _); inversion H; subst; cbn. unfold upd. rewrite Ht. reflexivity.
   - apply orb_false_iff in Ht as [H1 H2]. inversion H; subst; cbn. unfold upd. rewrite H1, H2. reflexivity.
@@ -136,7 +141,7 @@ Qed.
 (* only SVerify can set check_completed *)
 (* the steps that write check_completed *)
 Definition is_verify (s : step) : bool :=
-  match s with SVerify _ | SCheckBegin => true | _ => false end.
+  match s with SVerify _ | SVerifyS _ _ | SCheckBegin => true | _ => false end.
 
 Lemma unlink_checked : forall rs q mok rs', unlink rs q mok = Ok rs' -> r_checked rs' = r_checked rs.
 Proof.
@@ -222,7 +227,7 @@ Qed.
 (* ---- shape of the NP2.4 steps before delete_NP24: they only concern shank folders --- *)
 Definition shank_step (s : step) : bool :=
   match s with
-  | SMkdir _ | SAppendSh _ _ _ | SVerify _ | SCheckBegin => true
+  | SMkdir _ | SAppendSh _ _ _ | SAppendSub _ _ _ | SVerify _ | SVerifyS _ _ | SCheckBegin => true
   | STrunc (PFile (Shank _ _) _) | SCorrupt (PFile (Shank _ _) _)
   | SUnlink (PFile (Shank _ _) _) _ => true
   | SWriteMeta (Shank _ _) | SCompBegin (Shank _ _) | SCompEnd (Shank _ _) | SRename (Shank _ _)
@@ -737,80 +742,60 @@ Proof.
   destruct Hi as [A [B _]]. unfold inv. split; [exact A|]. split; [exact B|]. left; exact Hoo.
 Qed.
 
-Lemma run_once_inv : forall kd n w fs r, inv kd n fs -> inv kd n (out_fs (run_once kd n w fs r)).
+(* the comparison steps, the number of shanks they cover *)
+Definition is_sverify (s : step) : bool := match s with SVerify _ | SVerifyS _ _ => true | _ => false end.
+Definition verify_n (s : step) : nat := match s with SVerify n | SVerifyS _ n => n | _ => O end.
+
+Lemma mem_In : forall k l, mem k l = true <-> In k l.
 Proof.
-  intros kd n w fs r Hinv. unfold run_once.
-  destruct (input_state kd n fs (r_target r)) eqn:Ein; try exact Hinv.
-  destruct (input_present_orig _ _ _ _ Ein) as [Hm [HB HC]].
-  destruct (r_target r) eqn:Et; try exact Hinv.
-  - (* TBin *)
-    assert (Ho : orig_ok fs) by (left; auto).
-    destruct kd; try exact Hinv.
-    + destruct (go_out (plan24 n w (r_opts r) (r_ow r) (r_corrupt r) (target_form TBin) fs) (r_crash r) fs
-                  (if already24 (r_ow r) fs n then 0%Z else 1%Z) (if already24 (r_ow r) fs n then 1%Z else 0%Z))
-        as [c [rs' [Hx [Hfs _]]]].
-      rewrite Hfs. exact (proj1 (np24_prefix _ _ _ _ _ _ _ _ _ (or_introl eq_refl) Ho Hinv Hx)).
-    + destruct (go_out (plan21 w (r_opts r) (r_ow r) (target_form TBin) fs) (r_crash r) fs
-                  (if already21 (r_ow r) fs then 0%Z else 1%Z) (if already21 (r_ow r) fs then 1%Z else 0%Z))
-        as [c [rs' [Hx [Hfs _]]]].
-      rewrite Hfs. exact (proj1 (np21_prefix _ _ _ _ _ _ _ _ _ Ho Hinv (fun _ => HB eq_refl) Hx)).
-  - (* TCbin *)
-    assert (Ho : orig_ok fs) by (right; auto).
-    destruct kd; try exact Hinv.
-    + destruct (go_out (plan24 n w (r_opts r) (r_ow r) (r_corrupt r) (target_form TCbin) fs) (r_crash r) fs
-                  (if already24 (r_ow r) fs n then 0%Z else 1%Z) (if already24 (r_ow r) fs n then 1%Z else 0%Z))
-        as [c [rs' [Hx [Hfs _]]]].
-      rewrite Hfs. exact (proj1 (np24_prefix _ _ _ _ _ _ _ _ _ (or_intror eq_refl) Ho Hinv Hx)).
-    + destruct (go_out (plan21 w (r_opts r) (r_ow r) (target_form TCbin) fs) (r_crash r) fs
-                  (if already21 (r_ow r) fs then 0%Z else 1%Z) (if already21 (r_ow r) fs then 1%Z else 0%Z))
-        as [c [rs' [Hx [Hfs _]]]].
-      rewrite Hfs.
-      assert (Htf : target_form TCbin = FBin -> fs (PFile Orig FBin) = Complete) by (cbn; discriminate).
-      exact (proj1 (np21_prefix _ _ _ _ _ _ _ _ _ Ho Hinv Htf Hx)).
+  intros k l. unfold mem. rewrite existsb_exists. split.
+  - intros [x [Hx E]]. apply Nat.eqb_eq in E. subst. exact Hx.
+  - intros H. exists k. split; [exact H | apply Nat.eqb_refl].
 Qed.
 
-Lemma init_inv : forall kd n c, inv kd n (init_fs c).
+Lemma verify_cover_spec : forall fs sub n, verify_cover fs sub n = true ->
+  forall k, (k < n)%nat -> In k sub /\
+    fs (PFile (Shank k Ap) FBin) = Complete /\ fs (PFile (Shank k Ap) FMeta) = Complete.
 Proof.
-  intros. unfold inv, recoverable, orig_ok. cbn. destruct c; repeat split; try discriminate; auto.
+  intros fs sub n H k Hk. unfold verify_cover in H. apply andb_true_iff in H as [Hc Ha].
+  rewrite forallb_forall in Hc, Ha.
+  assert (Hin : In k sub) by (apply mem_In; apply Hc; apply in_seq; lia).
+  split; [exact Hin|]. specialize (Ha k Hin). apply andb_true_iff in Ha as [A B].
+  split; apply complete_true; assumption.
 Qed.
 
-Lemma history_inv : forall kd n w h fs, inv kd n fs -> inv kd n (state_after kd n w fs h).
+Lemma sverify_ok_spec : forall v rs rs', is_sverify v = true -> step_sem v rs = Ok rs' ->
+  r_checked rs' = true /\ r_fs rs' = r_fs rs /\
+  forall k, (k < verify_n v)%nat ->
+    r_fs rs (PFile (Shank k Ap) FBin) = Complete /\ r_fs rs (PFile (Shank k Ap) FMeta) = Complete.
 Proof.
-  intros kd n w. induction h as [|r h IH]; intros fs H; cbn; [exact H|].
-  apply IH. apply run_once_inv. exact H.
+  intros v rs rs' Hv H. destruct v; try discriminate; cbn in H.
+  - destruct (all_ap_complete (r_fs rs) n) eqn:E; [|discriminate]. inversion H; subst; cbn.
+    split; [reflexivity|]. split; [reflexivity|]. apply all_ap_complete_spec2. exact E.
+  - destruct (verify_cover (r_fs rs) sub n) eqn:E; [|discriminate]. inversion H; subst; cbn.
+    split; [reflexivity|]. split; [reflexivity|]. intros k Hk. apply (verify_cover_spec _ _ _ E k Hk).
 Qed.
 
-Lemma original_recoverable : forall kd n w c h,
-  let fs := state_after kd n w (init_fs c) h in
-  fs (PFile Orig FMeta) = Complete /\ recoverable kd n fs.
-Proof.
-  intros. destruct (history_inv kd n w h (init_fs c) (init_inv kd n c)) as [A [_ B]]. auto.
-Qed.
-
-(* check_completed is set only by a verification step that found every shank's
-   ap.bin complete at that moment *)
+(* check_completed is set only by a comparison step that found every shank's ap.bin (of all
+   verify_n shanks of the probe) complete at that moment *)
 Lemma check_completed_sound : forall l rs rs',
   r_checked rs = false -> exec l rs = (rs', None) -> r_checked rs' = true ->
-  exists l1 m l2 rsv, l = l1 ++ SVerify m :: l2 /\ exec l1 rs = (rsv, None) /\
-    forall k, (k < m)%nat -> r_fs rsv (PFile (Shank k Ap) FBin) = Complete.
+  exists l1 v l2 rsv, l = l1 ++ v :: l2 /\ is_sverify v = true /\ exec l1 rs = (rsv, None) /\
+    forall k, (k < verify_n v)%nat -> r_fs rsv (PFile (Shank k Ap) FBin) = Complete.
 Proof.
   induction l as [|s l IH]; intros rs rs' Hc H Hck.
   - cbn in H. inversion H; subst. congruence.
   - apply exec_cons_ok in H as [rs1 [Hs Hx]].
-    destruct (is_verify s) eqn:Ev.
-    + destruct s; try discriminate.
-      * (* SCheckBegin: the flag is cleared, go on *)
-        cbn in Hs. inversion Hs; subst rs1; clear Hs.
-        destruct (IH (mkR (r_fs rs) false) rs' eq_refl Hx Hck) as [l1 [m [l2 [rsv [El [Hx1 Hall]]]]]].
-        exists (SCheckBegin :: l1), m, l2, rsv. split; [cbn; rewrite El; reflexivity|]. split; [|exact Hall].
-        cbn. exact Hx1.
-      * exists [], n, l, rs. split; [reflexivity|]. split; [reflexivity|].
-        cbn in Hs. destruct (all_ap_complete (r_fs rs) n) eqn:E; [|discriminate].
-        apply all_ap_complete_spec. exact E.
-    + pose proof (step_checked _ _ _ Hs Ev) as Hc1. rewrite Hc in Hc1.
-      destruct (IH _ _ Hc1 Hx Hck) as [l1 [m [l2 [rsv [El [Hx1 Hall]]]]]].
-      exists (s :: l1), m, l2, rsv. split; [cbn; rewrite El; reflexivity|]. split; [|exact Hall].
-      cbn. rewrite Hs. exact Hx1.
+    destruct (is_sverify s) eqn:Esv.
+    + exists [], s, l, rs. split; [reflexivity|]. split; [exact Esv|]. split; [reflexivity|].
+      intros k Hk. apply (sverify_ok_spec _ _ _ Esv Hs). exact Hk.
+    + assert (Hc1 : r_checked rs1 = false).
+      { destruct (is_verify s) eqn:Ev.
+        - destruct s; try discriminate. cbn in Hs. inversion Hs; reflexivity.
+        - rewrite (step_checked _ _ _ Hs Ev). exact Hc. }
+      destruct (IH _ _ Hc1 Hx Hck) as [l1 [v [l2 [rsv [El [Hv [Hx1 Hall]]]]]]].
+      exists (s :: l1), v, l2, rsv. split; [cbn; rewrite El; reflexivity|]. split; [exact Hv|].
+      split; [|exact Hall]. cbn. rewrite Hs. exact Hx1.
 Qed.
 
 Lemma split_input_noop : forall kd n w fs r k,
@@ -837,11 +822,11 @@ Proof. intros. unfold go. destruct crash as [c|]; [rewrite firstn_nil|]; reflexi
 
 Lemma rerun_noop24 : forall n w fs r,
   (1 <= n)%nat -> (forall k, (k < n)%nat -> fs (PDir k) <> Absent) ->
-  r_ow r = false -> (r_target r = TBin \/ r_target r = TCbin) ->
+  r_ow r = false -> r_sub r = None -> (r_target r = TBin \/ r_target r = TCbin) ->
   input_state NP24 n fs (r_target r) = Present ->
   run_once NP24 n w fs r = mkOut fs (Status 0) false 1 false [].
 Proof.
-  intros n w fs r Hn Hd How Ht Hin. unfold run_once. rewrite Hin, How.
+  intros n w fs r Hn Hd How Hsub Ht Hin. unfold run_once. rewrite Hin, How, Hsub.
   assert (Hal : already24 false fs n = true).
   { unfold already24. apply existsb_exists. exists 0%nat. split; [apply in_seq; lia|].
     rewrite (proj2 (present_true fs (PDir 0))); [reflexivity | apply Hd; lia]. }
@@ -935,11 +920,11 @@ Proof.
 Qed.
 
 Lemma complete24_dirs : forall n w fs r,
-  (r_target r = TBin \/ r_target r = TCbin) ->
+  r_sub r = None -> (r_target r = TBin \/ r_target r = TCbin) ->
   out_outcome (run_once NP24 n w fs r) = Status 1 ->
   forall k, (k < n)%nat -> out_fs (run_once NP24 n w fs r) (PDir k) = Complete.
 Proof.
-  intros n w fs r Ht H k Hk. unfold run_once in *.
+  intros n w fs r Hsub Ht H k Hk. unfold run_once in *. rewrite Hsub in *.
   destruct (input_state NP24 n fs (r_target r)); try discriminate.
   assert (G : forall tf,
     out_outcome (go (plan24 n w (r_opts r) (r_ow r) (r_corrupt r) tf fs) (r_crash r) fs
@@ -1279,7 +1264,7 @@ Qed.
 
 Lemma forced24 : forall n w' fs t o,
   (t = TBin \/ t = TCbin) -> input_state NP24 n fs t = Present ->
-  let out := run_once NP24 n (S w') fs (mkRun t o true None None) in
+  let out := run_once NP24 n (S w') fs (mkRun t o true None None None) in
   let tf := target_form t in
   out_outcome out = Status 1 /\ out_checked out = o_post o /\ final24_ok n o (out_fs out) /\
   out_fs out (PFile Orig tf) = (if o_post o && o_del o then Absent else fs (PFile Orig tf)) /\
@@ -1290,7 +1275,7 @@ Proof.
   assert (Hp : fs (PFile Orig (target_form t)) <> Absent).
   { destruct Ht as [-> | ->]; cbn; [rewrite HB by reflexivity | destruct HC as [-> _]; [reflexivity|]]; discriminate. }
   destruct (forced24_exec n w' o (target_form t) fs Hp) as [rs' [Hx [Hc [Hf [Ho Hr]]]]].
-  unfold run_once. cbn [r_target r_opts r_ow r_crash r_corrupt]. rewrite Hin.
+  unfold run_once. cbn [r_target r_opts r_ow r_crash r_corrupt r_sub]. rewrite Hin.
   rewrite already24_true_ow.
   destruct (go_full _ fs 1%Z 0%Z rs' Hx) as [G1 [G2 G3]].
   destruct Ht as [-> | ->]; cbn [target_form] in *; rewrite G1, G2, G3; auto.
@@ -1298,7 +1283,7 @@ Qed.
 
 Lemma forced21 : forall n w' fs t o,
   (t = TBin \/ t = TCbin) -> input_state NP21 n fs t = Present ->
-  let out := run_once NP21 n (S w') fs (mkRun t o true None None) in
+  let out := run_once NP21 n (S w') fs (mkRun t o true None None None) in
   out_outcome out = Status 1 /\
   out_fs out (PFile Lf21 FMeta) = Complete /\ out_ok (o_comp o) (out_fs out) Lf21 /\
   (if o_comp o && fkind_eqb (target_form t) FBin then out_ok true (out_fs out) Orig
@@ -1310,7 +1295,7 @@ Proof.
   assert (Htf : target_form t = FBin -> fs (PFile Orig FBin) = Complete).
   { destruct Ht as [-> | ->]; cbn; [auto | discriminate]. }
   destruct (forced21_exec w' o (target_form t) fs Htf) as [rs' [Hx [Hm [Hl [Ho Hom]]]]].
-  unfold run_once. cbn [r_target r_opts r_ow r_crash r_corrupt]. rewrite Hin.
+  unfold run_once. cbn [r_target r_opts r_ow r_crash r_corrupt r_sub]. rewrite Hin.
   assert (Hal : already21 true fs = false) by (unfold already21; apply andb_false_r).
   rewrite Hal.
   destruct (go_full _ fs 1%Z 0%Z rs' Hx) as [G1 [G2 G3]].
@@ -1400,7 +1385,6 @@ Proof.
 Qed.
 
 (* starting from a cleared flag, only a successful comparison sets it *)
-Definition is_sverify (s : step) : bool := match s with SVerify _ => true | _ => false end.
 Lemma step_checked_false : forall s rs rs',
   step_sem s rs = Ok rs' -> is_sverify s = false -> r_checked rs = false -> r_checked rs' = false.
 Proof.
@@ -1424,7 +1408,7 @@ Lemma noverify_nosverify : forall l,
   forallb (fun s => negb (is_verify s)) l = true -> forallb (fun s => negb (is_sverify s)) l = true.
 Proof.
   intros l H. apply forallb_forall. intros s Hs. rewrite forallb_forall in H. specialize (H s Hs).
-  destruct s; try reflexivity. discriminate.
+  destruct s; try reflexivity; discriminate.
 Qed.
 
 Lemma metas24_noverify : forall n, forallb (fun s => negb (is_verify s)) (metas24 n) = true.
@@ -1513,6 +1497,186 @@ Proof.
   rewrite !Hf. exact Hok2.
 Qed.
 
+(* ---- init_params(nshank=sub): only some shanks are written ----------------------- *)
+Lemma nodupb_NoDup : forall l, nodupb l = true -> NoDup l.
+Proof.
+  induction l as [|k l IH]; intros H; [constructor|]. cbn in H. apply andb_true_iff in H as [A B].
+  constructor; [|apply IH; exact B]. intros Hin. apply mem_In in Hin. rewrite Hin in A. discriminate.
+Qed.
+Lemma sub_ok_NoDup : forall sub n, sub_ok sub n = true -> NoDup sub.
+Proof.
+  intros sub n H. unfold sub_ok in H. apply andb_true_iff in H as [H _]. apply andb_true_iff in H as [_ H].
+  apply nodupb_NoDup. exact H.
+Qed.
+
+Lemma prep24s_shape : forall ow fs sub, forallb shank_step (prep24s ow fs sub) = true.
+Proof.
+  intros. unfold prep24s. apply forallb_flat_map. intros k _. unfold prep_one.
+  destruct (negb _ || ow); reflexivity.
+Qed.
+Lemma prep24s_noverify : forall ow fs sub, forallb (fun s => negb (is_verify s)) (prep24s ow fs sub) = true.
+Proof.
+  intros. unfold prep24s. apply forallb_flat_map. intros k _. unfold prep_one.
+  destruct (negb _ || ow); reflexivity.
+Qed.
+Lemma wins24s_noverify : forall sub w, forallb (fun s => negb (is_verify s)) (wins24s sub w) = true.
+Proof.
+  intros. unfold wins24s. destruct w; [reflexivity|]. rewrite forallb_app. apply andb_true_iff.
+  split; [apply forallb_flat_map|]; reflexivity.
+Qed.
+Lemma metas24s_noverify : forall sub, forallb (fun s => negb (is_verify s)) (metas24s sub) = true.
+Proof.
+  intros. unfold metas24s. rewrite forallb_app. apply andb_true_iff. split; apply forallb_flat_map; reflexivity.
+Qed.
+Lemma comp24s_noverify : forall ow sub, forallb (fun s => negb (is_verify s)) (comp24s ow sub) = true.
+Proof.
+  intros. unfold comp24s. apply forallb_flat_map. intros k _. unfold comp_steps. destruct ow; reflexivity.
+Qed.
+
+Lemma body24s_shape : forall sub n w o ow corrupt, forallb shank_step (body24s sub n w o ow corrupt) = true.
+Proof.
+  intros. unfold body24s. repeat rewrite forallb_app. repeat (apply andb_true_iff; split).
+  - unfold wins24s. destruct w; [reflexivity|]. rewrite forallb_app. apply andb_true_iff. split; [|reflexivity].
+    apply forallb_flat_map. reflexivity.
+  - unfold metas24s. rewrite forallb_app. apply andb_true_iff. split; apply forallb_flat_map; reflexivity.
+  - destruct (o_post o); [|reflexivity]. unfold verify24s. destruct corrupt; reflexivity.
+  - destruct (o_comp o); [|reflexivity]. unfold comp24s. apply forallb_flat_map. intros k _.
+    rewrite forallb_app. rewrite !comp_steps_shape. reflexivity.
+Qed.
+
+Lemma plan24s_noverify : forall sub n w o ow corrupt tf fs,
+  o_post o = false -> forallb (fun s => negb (is_verify s)) (plan24s sub n w o ow corrupt tf fs) = true.
+Proof.
+  intros sub n w o ow corrupt tf fs Hp. unfold plan24s. destruct (already24s ow fs sub); [apply prep24s_noverify|].
+  unfold body24s, del24. rewrite Hp. repeat rewrite forallb_app.
+  rewrite prep24s_noverify, wins24s_noverify, metas24s_noverify. cbn [forallb andb].
+  destruct (o_comp o); [rewrite comp24s_noverify|]; destruct (o_del o); reflexivity.
+Qed.
+
+Definition pre_verify_s (sub : list nat) (w : nat) (ow : bool) (corrupt : option nat) (fs : fsys) : list step :=
+  prep24s ow fs sub ++ wins24s sub w ++ metas24s sub
+  ++ match corrupt with Some k => [SCorrupt (PFile (Shank k Ap) FBin)] | None => [] end ++ [SCheckBegin].
+
+Lemma plan24s_split : forall sub n w o ow corrupt tf fs,
+  already24s ow fs sub = false -> o_post o = true ->
+  plan24s sub n w o ow corrupt tf fs =
+  pre_verify_s sub w ow corrupt fs ++ SVerifyS sub n :: ((if o_comp o then comp24s ow sub else []) ++ del24 o tf).
+Proof.
+  intros sub n w o ow corrupt tf fs Hal Hp. unfold plan24s, body24s, verify24s, pre_verify_s. rewrite Hal, Hp.
+  destruct corrupt; cbn [app]; repeat rewrite <- app_assoc; cbn [app]; reflexivity.
+Qed.
+
+Lemma pre_verify_s_nosverify : forall sub w ow corrupt fs,
+  forallb (fun s => negb (is_sverify s)) (pre_verify_s sub w ow corrupt fs) = true.
+Proof.
+  intros. unfold pre_verify_s. repeat rewrite forallb_app.
+  rewrite (noverify_nosverify _ (prep24s_noverify ow fs sub)), (noverify_nosverify _ (wins24s_noverify sub w)),
+          (noverify_nosverify _ (metas24s_noverify sub)).
+  destruct corrupt; reflexivity.
+Qed.
+
+(* K for a subset run: check_completed set at any interruption point ==> the verification found the
+   shank files covering EVERY channel of the original, each complete — so every shank k < n is ok *)
+Lemma plan24s_prefix_K : forall sub n w o ow corrupt tf fs c rs',
+  NoDup sub ->
+  exec (firstn c (plan24s sub n w o ow corrupt tf fs)) (mkR fs false) = (rs', None) ->
+  r_checked rs' = true -> shanks_ok n (r_fs rs').
+Proof.
+  intros sub n w o ow corrupt tf fs c rs' Hnd H Hck.
+  destruct (o_post o) eqn:Ep.
+  2:{ exfalso. assert (r_checked rs' = false); [|congruence].
+      eapply (exec_checked_false _ (mkR fs false)); [exact H | | reflexivity].
+      apply forallb_firstn. apply noverify_nosverify. apply plan24s_noverify. exact Ep. }
+  destruct (already24s ow fs sub) eqn:Eal.
+  { exfalso. assert (r_checked rs' = false); [|congruence].
+    unfold plan24s in H. rewrite Eal in H.
+    eapply (exec_checked_false _ (mkR fs false)); [exact H | | reflexivity].
+    apply forallb_firstn. apply noverify_nosverify. apply prep24s_noverify. }
+  rewrite (plan24s_split _ _ _ _ _ _ _ _ Eal Ep) in H. rewrite firstn_app in H.
+  apply exec_app_ok in H as [rs1 [H1 H2]].
+  assert (Hc1 : r_checked rs1 = false).
+  { eapply (exec_checked_false _ (mkR fs false)); [exact H1 | | reflexivity].
+    apply forallb_firstn. apply pre_verify_s_nosverify. }
+  destruct (c - length (pre_verify_s sub w ow corrupt fs))%nat as [|m].
+  { cbn in H2. inversion H2; subst. congruence. }
+  cbn [firstn] in H2. apply exec_cons_ok in H2 as [rsV [HsV H3]].
+  cbn in HsV. destruct (verify_cover (r_fs rs1) sub n) eqn:Ecov; [|discriminate].
+  inversion HsV; subst rsV; clear HsV.
+  pose proof (verify_cover_spec _ _ _ Ecov) as Hall.
+  assert (Hsubbin : forall k, In k sub -> r_fs rs1 (PFile (Shank k Ap) FBin) = Complete).
+  { intros k Hk. unfold verify_cover in Ecov. apply andb_true_iff in Ecov as [_ Ha].
+    rewrite forallb_forall in Ha. specialize (Ha k Hk). apply andb_true_iff in Ha as [A _].
+    apply complete_true. exact A. }
+  rewrite firstn_app in H3. apply exec_app_ok in H3 as [rs2 [HC HD]].
+  assert (Hok2 : shanks_ok n (r_fs rs2)).
+  { intros k Hk. destruct (Hall k Hk) as [Hin [Hb Hm]]. split.
+    - destruct (o_comp o).
+      + unfold comp24s in HC.
+        change (fun k0 => comp_steps ow (Shank k0 Ap) ++ comp_steps ow (Shank k0 Lf)) with (compk ow) in HC.
+        apply (comp_list_prefix ow sub _ _ _ Hnd) with (k := k) in HC; [exact HC | exact Hsubbin | exact Hin].
+      + rewrite firstn_nil in HC. cbn in HC. inversion HC; subst. left. exact Hb.
+    - rewrite (exec_frame _ _ _ _ (PFile (Shank k Ap) FMeta) HC); [exact Hm|]. intros s Hs. apply In_firstn in Hs.
+      destruct (o_comp o); [|destruct Hs]. unfold comp24s in Hs.
+      apply in_flat_map in Hs as [k' [_ Hs]]. apply in_app_or in Hs as [Hs|Hs]; eapply touches_comp_meta; eauto. }
+  intros k Hk. specialize (Hok2 k Hk). unfold shank_ok in *.
+  assert (Hf : forall e f, r_fs rs' (PFile (Shank k e) f) = r_fs rs2 (PFile (Shank k e) f)).
+  { intros e f. eapply exec_frame; [exact HD|]. intros s Hs. apply In_firstn in Hs.
+    unfold del24 in Hs. destruct (o_del o); [|destruct Hs]. destruct Hs as [<-|[]]. cbn [touches].
+    apply path_eqb_neq. congruence. }
+  rewrite !Hf. exact Hok2.
+Qed.
+
+(* safety of a subset run stopped anywhere *)
+Lemma np24s_prefix : forall sub n w o ow corrupt tf fs c rs',
+  NoDup sub -> (tf = FBin \/ tf = FCbin) -> orig_ok fs -> inv NP24 n fs ->
+  exec (firstn c (plan24s sub n w o ow corrupt tf fs)) (mkR fs false) = (rs', None) ->
+  inv NP24 n (r_fs rs') /\
+  (forall f, f <> tf -> r_fs rs' (PFile Orig f) = fs (PFile Orig f)) /\
+  (r_fs rs' (PFile Orig tf) = fs (PFile Orig tf) \/ r_fs rs' (PFile Orig tf) = Absent) /\
+  (r_fs rs' (PFile Orig tf) <> fs (PFile Orig tf) ->
+   o_del o = true /\ r_checked rs' = true /\ shanks_ok n (r_fs rs')).
+Proof.
+  intros sub n w o ow corrupt tf fs c rs' Hnd Htf Ho Hinv H.
+  pose proof (plan24s_prefix_K sub n w o ow corrupt tf fs c rs' Hnd H) as HK.
+  unfold plan24s in H. destruct (already24s ow fs sub) eqn:Eal.
+  - assert (Hf : forall f, r_fs rs' (PFile Orig f) = fs (PFile Orig f)).
+    { intros f. eapply (shank_steps_frame_orig _ (mkR fs false)); eauto.
+      apply forallb_firstn, prep24s_shape. }
+    split; [apply (frame_inv NP24 n fs); auto|]. split; [intros; apply Hf|].
+    split; [left; apply Hf | intros Hne; rewrite Hf in Hne; contradiction].
+  - set (A := prep24s ow fs sub ++ body24s sub n w o ow corrupt) in *.
+    rewrite firstn_app in H. apply exec_app_ok in H as [rs1 [HA HD]].
+    assert (Hf1 : forall f, r_fs rs1 (PFile Orig f) = fs (PFile Orig f)).
+    { intros f. eapply (shank_steps_frame_orig _ (mkR fs false)); eauto.
+      apply forallb_firstn. subst A. rewrite forallb_app, prep24s_shape, body24s_shape. reflexivity. }
+    assert (Hsame : rs' = rs1 -> inv NP24 n (r_fs rs') /\
+              (forall f, f <> tf -> r_fs rs' (PFile Orig f) = fs (PFile Orig f)) /\
+              (r_fs rs' (PFile Orig tf) = fs (PFile Orig tf) \/ r_fs rs' (PFile Orig tf) = Absent) /\
+              (r_fs rs' (PFile Orig tf) <> fs (PFile Orig tf) ->
+               o_del o = true /\ r_checked rs' = true /\ shanks_ok n (r_fs rs'))).
+    { intros ->. split; [apply (frame_inv NP24 n fs); auto|]. split; [intros; apply Hf1|].
+      split; [left; apply Hf1 | intros Hne; rewrite Hf1 in Hne; contradiction]. }
+    unfold del24 in HD. destruct (o_del o) eqn:Edel.
+    2:{ rewrite firstn_nil in HD. cbn in HD. inversion HD; subst. auto. }
+    destruct (c - length A)%nat as [|m] eqn:Ec.
+    { cbn in HD. inversion HD; subst. auto. }
+    cbn [firstn] in HD. rewrite firstn_nil in HD. cbn in HD.
+    destruct (r_checked rs1) eqn:Eck.
+    2:{ inversion HD; subst. auto. }
+    unfold unlink in HD. destruct (present (r_fs rs1) (PFile Orig tf)) eqn:Epr; [|discriminate].
+    inversion HD; subst rs'; clear HD. cbn [r_fs r_checked] in *.
+    pose proof (HK Eck) as Hsh'.
+    destruct Hinv as [Hm [Hb _]].
+    split; [|split; [|split]].
+    + unfold inv. repeat split.
+      * destruct Htf as [-> | ->]; upd_simp; rewrite Hf1; exact Hm.
+      * destruct Htf as [-> | ->]; upd_simp; [discriminate | rewrite Hf1; exact Hb].
+      * right. split; [reflexivity | exact Hsh'].
+    + intros f Hf. rewrite upd_other by congruence. apply Hf1.
+    + right. apply upd_same.
+    + intros _. auto.
+Qed.
+
 (* ---- the invariant of one object over arbitrary method-call sequences ------------- *)
 Definition objI (n : nat) (ob : obj) (fs : fsys) : Prop :=
   (ob_tf ob = FBin \/ ob_tf ob = FCbin) /\ inv NP24 n fs /\
@@ -1568,11 +1732,24 @@ Proof.
     unfold refused in Er. cbn [is_process andb] in Er. apply negb_false_iff in Er.
     assert (Hpr : fs (PFile Orig (ob_tf ob)) <> Absent) by (apply present_true; exact Er).
     destruct (ob_closed ob) eqn:Ecl; [exfalso; apply Hpr; apply Jcl; reflexivity|].
-    inversion Ep; subst plan st al; clear Ep. cbn [start_flag] in Hx.
-    pose proof (Jok Hpr) as Hok.
-    destruct (np24_prefix_gen _ _ _ _ _ _ _ _ _ _ (fun _ => eq_refl) Jtf Hok Jinv Hx) as [Hinv' [_ [Hoth Htfc]]].
+    pose proof (Jok Hpr) as Hok. cbn [start_flag] in Hx.
+    assert (Hgoal : inv NP24 n (r_fs rs') /\ (r_checked rs' = true -> shanks_ok n (r_fs rs')) /\
+              (forall f, f <> ob_tf ob -> r_fs rs' (PFile Orig f) = fs (PFile Orig f)) /\
+              (r_fs rs' (PFile Orig (ob_tf ob)) = fs (PFile Orig (ob_tf ob)) \/
+               r_fs rs' (PFile Orig (ob_tf ob)) = Absent)).
+    { destruct (ob_sub ob) as [sub|].
+      - destruct (sub_ok sub n) eqn:Eok; [|discriminate]. inversion Ep; subst plan st al; clear Ep.
+        pose proof (sub_ok_NoDup _ _ Eok) as Hnd.
+        destruct (np24s_prefix _ _ _ _ _ _ _ _ _ _ Hnd Jtf Hok Jinv Hx) as [A [B [C _]]].
+        split; [exact A|]. split; [|split; [exact B | exact C]].
+        intros Hc. eapply plan24s_prefix_K; eauto.
+      - inversion Ep; subst plan st al; clear Ep.
+        destruct (np24_prefix_gen _ _ _ _ _ _ _ _ _ _ (fun _ => eq_refl) Jtf Hok Jinv Hx) as [A [_ [B C]]].
+        split; [exact A|]. split; [|split; [exact B | exact C]].
+        intros Hc. eapply plan24_prefix_K; eauto. }
+    destruct Hgoal as [Hinv' [HK' [Hoth Htfc]]].
     split; [exact Jtf|]. split; [exact Hinv'|].
-    split; [intros Hc; eapply plan24_prefix_K; eauto|].
+    split; [exact HK'|].
     split.
     + intros Hp'. assert (Hsm : forall f, r_fs rs' (PFile Orig f) = fs (PFile Orig f)).
       { intros f. destruct (fkind_eqb f (ob_tf ob)) eqn:Ef.
@@ -1582,16 +1759,22 @@ Proof.
     + cbn [orb]. rewrite Er. cbn [andb]. intros Hn. apply negb_true_iff in Hn. apply present_false. exact Hn.
   - (* check_NP24() *)
     destruct cp; [discriminate|]. destruct (ob_fullbin ob); [|discriminate].
-    inversion Ep; subst plan st al; clear Ep. cbn [start_flag verify24 app] in Hx.
+    assert (Hcase : exists v, plan = [SCheckBegin; v] /\ is_sverify v = true /\ verify_n v = n).
+    { destruct (ob_sub ob) as [sub|].
+      - destruct (sub_ok sub n); [|discriminate]. inversion Ep; subst. exists (SVerifyS sub n). auto.
+      - inversion Ep; subst. exists (SVerify n). auto. }
+    destruct Hcase as [v [-> [Hv Hvn]]]. clear Ep. cbn [start_flag] in Hx.
     destruct c1 as [|[|c1]]; cbn [firstn] in Hx.
     + cbn in Hx. inversion Hx; subst rs'. apply Hsame; auto.
     + cbn in Hx. inversion Hx; subst rs'. apply Hsame; [reflexivity | discriminate].
-    + rewrite firstn_nil in Hx. cbn in Hx.
-      destruct (all_ap_complete fs n) eqn:Eall; [|discriminate]. inversion Hx; subst rs'; cbn [r_fs r_checked].
-      rewrite andb_negb_r, orb_false_r. repeat split; auto.
-      * apply Jinv. * apply Jinv. * apply Jinv.
-      * left. apply (all_ap_complete_spec2 _ _ Eall). assumption.
-      * apply (all_ap_complete_spec2 _ _ Eall). assumption.
+    + rewrite firstn_nil in Hx. apply exec_cons_ok in Hx as [r1 [S1 Hx]].
+      cbn in S1. inversion S1; subst r1; clear S1.
+      apply exec_cons_ok in Hx as [rsv [Esv Hx]]. cbn in Hx. inversion Hx; subst rsv; clear Hx.
+      destruct (sverify_ok_spec _ _ _ Hv Esv) as [Hc' [Hfs' Hall]]. cbn [r_fs] in Hfs', Hall.
+      rewrite Hvn in Hall. rewrite Hfs'.
+      rewrite andb_negb_r, orb_false_r. split; [exact Jtf|]. split; [exact Jinv|].
+      split; [|split; [exact Jok | exact Jcl]].
+      intros _ k Hk. destruct (Hall k Hk) as [A B]. split; [left; exact A | exact B].
   - (* delete_NP24() *)
     destruct (o_del (ob_opts ob)); [|discriminate]. inversion Ep; subst plan st al; clear Ep.
     cbn [start_flag] in Hx.
@@ -1628,12 +1811,12 @@ Proof.
   apply IH; [exact Hall|]. eapply objI_step; eauto.
 Qed.
 
-Lemma new_obj_I : forall n fs o (c : bool),
+Lemma new_obj_I : forall n fs o (c : bool) sub,
   inv NP24 n fs -> input_state NP24 n fs (if c then TCbin else TBin) = Present ->
-  objI n (new_obj o c) fs.
+  objI n (new_obj_sub o c sub) fs.
 Proof.
-  intros n fs o c Hinv Hin. destruct (input_present_orig _ _ _ _ Hin) as [_ [HB HC]].
-  unfold objI, new_obj. cbn [ob_opts ob_checked ob_tf ob_closed].
+  intros n fs o c sub Hinv Hin. destruct (input_present_orig _ _ _ _ Hin) as [_ [HB HC]].
+  unfold objI, new_obj_sub. cbn [ob_opts ob_checked ob_tf ob_closed].
   split; [destruct c; auto|]. split; [exact Hinv|]. split; [discriminate|]. split; [|discriminate].
   intros _. destruct c; [right; apply HC; reflexivity | left; apply HB; reflexivity].
 Qed.
@@ -1657,21 +1840,75 @@ Proof.
     + inversion H; subst. reflexivity.
 Qed.
 
-(* an NP2.4 process() call that actually ran (the original exists) clears the flag first: if it ends
-   with check_completed set, a check_NP24 step of THIS call succeeded on complete shank files *)
-Lemma process_flag_from_this_call : forall n w ob fs ow cr cp ob' o,
-  fs (PFile Orig (ob_tf ob)) <> Absent ->
-  obj_call NP24 n w ob fs (CProcess ow cr cp) = (ob', o) -> ob_checked ob' = true ->
-  exists l1 m l2 rsv, out_trace o = l1 ++ SVerify m :: l2 /\ exec l1 (mkR fs false) = (rsv, None) /\
-    forall k, (k < m)%nat -> r_fs rsv (PFile (Shank k Ap) FBin) = Complete.
+(* every comparison step of an NP2.4 process() plan is about all n shanks of the probe *)
+Definition vn_ok (n : nat) (s : step) : bool := negb (is_sverify s) || Nat.eqb (verify_n s) n.
+Lemma noverify_vn : forall n l, forallb (fun s => negb (is_verify s)) l = true -> forallb (vn_ok n) l = true.
 Proof.
-  intros n w ob fs ow cr cp ob' o Hpr H Hck. unfold obj_call, refused in H. cbn [is_process andb] in H.
-  rewrite (proj2 (present_true _ _) Hpr) in H. cbn [negb] in H.
-  cbn [call_plan call_crash start_flag] in H. cbv zeta in H.
+  intros n l H. apply forallb_forall. intros s Hs. rewrite forallb_forall in H. specialize (H s Hs).
+  unfold vn_ok. destruct s; try reflexivity; discriminate.
+Qed.
+Lemma del24_vn : forall n o tf, forallb (vn_ok n) (del24 o tf) = true.
+Proof. intros. unfold del24. destruct (o_del o); reflexivity. Qed.
+Lemma plan24_vn : forall n w o ow corrupt tf fs, forallb (vn_ok n) (plan24 n w o ow corrupt tf fs) = true.
+Proof.
+  intros. unfold plan24. destruct (already24 ow fs n); [apply noverify_vn, prep24_noverify|].
+  unfold body24. repeat rewrite forallb_app.
+  rewrite (noverify_vn n _ (prep24_noverify ow fs n)), (noverify_vn n _ (wins24_noverify n w)),
+          (noverify_vn n _ (metas24_noverify n)), del24_vn. cbn [andb].
+  rewrite andb_true_r. apply andb_true_iff. split.
+  - destruct (o_post o); [|reflexivity]. unfold verify24, vn_ok. destruct corrupt; cbn; rewrite Nat.eqb_refl; reflexivity.
+  - destruct (o_comp o); [apply noverify_vn, comp24_noverify | reflexivity].
+Qed.
+Lemma plan24s_vn : forall sub n w o ow corrupt tf fs, forallb (vn_ok n) (plan24s sub n w o ow corrupt tf fs) = true.
+Proof.
+  intros. unfold plan24s. destruct (already24s ow fs sub); [apply noverify_vn, prep24s_noverify|].
+  unfold body24s. repeat rewrite forallb_app.
+  rewrite (noverify_vn n _ (prep24s_noverify ow fs sub)), (noverify_vn n _ (wins24s_noverify sub w)),
+          (noverify_vn n _ (metas24s_noverify sub)), del24_vn. cbn [andb].
+  rewrite andb_true_r. apply andb_true_iff. split.
+  - destruct (o_post o); [|reflexivity]. unfold verify24s, vn_ok. destruct corrupt; cbn; rewrite Nat.eqb_refl; reflexivity.
+  - destruct (o_comp o); [apply noverify_vn, comp24s_noverify | reflexivity].
+Qed.
+Lemma call_plan_vn : forall n w ob fs ow cr cp plan st al,
+  call_plan NP24 n w ob fs (CProcess ow cr cp) = Some (plan, st, al) -> forallb (vn_ok n) plan = true.
+Proof.
+  intros n w ob fs ow cr cp plan st al Hp. cbn [call_plan] in Hp. destruct (ob_sub ob) as [sub|].
+  - destruct (sub_ok sub n); [|discriminate]. inversion Hp; subst plan; clear Hp.
+    destruct (ob_closed ob); [|apply plan24s_vn].
+    destruct (already24s ow fs sub); [apply noverify_vn, prep24s_noverify|].
+    rewrite forallb_app, (noverify_vn n _ (prep24s_noverify ow fs sub)). reflexivity.
+  - inversion Hp; subst plan; clear Hp.
+    destruct (ob_closed ob); [|apply plan24_vn].
+    destruct (already24 ow fs n); [apply noverify_vn, prep24_noverify|].
+    rewrite forallb_app, (noverify_vn n _ (prep24_noverify ow fs n)). reflexivity.
+Qed.
+
+(* an NP2.4 process() call that actually ran (the original exists) clears the flag first: if it ends
+   with check_completed set, a comparison step of THIS call succeeded on complete shank files of
+   all n shanks *)
+Lemma process_flag_from_this_call : forall n w ob fs ow cr cp ob' o plan st al,
+  fs (PFile Orig (ob_tf ob)) <> Absent ->
+  call_plan NP24 n w ob fs (CProcess ow cr cp) = Some (plan, st, al) ->
+  obj_call NP24 n w ob fs (CProcess ow cr cp) = (ob', o) -> ob_checked ob' = true ->
+  exists l1 v l2 rsv, out_trace o = l1 ++ v :: l2 /\ is_sverify v = true /\ verify_n v = n /\
+    exec l1 (mkR fs false) = (rsv, None) /\
+    forall k, (k < n)%nat -> r_fs rsv (PFile (Shank k Ap) FBin) = Complete.
+Proof.
+  intros n w ob fs ow cr cp ob' o plan st al Hpr Hp H Hck. unfold obj_call, refused in H. cbn [is_process andb] in H.
+  rewrite (proj2 (present_true _ _) Hpr) in H. cbn [negb] in H. rewrite Hp in H.
+  cbn [call_crash start_flag] in H. cbv zeta in H.
   match type of H with context [exec ?pl0 _] => set (pl := pl0) in * end.
   destruct (exec pl (mkR fs false)) as [rs' e] eqn:E.
   inversion H; subst ob' o; clear H. cbn [out_trace ob_checked] in *.
-  exact (check_completed_sound _ (mkR fs false) rs' eq_refl (exec_executed _ _ _ _ E) Hck).
+  destruct (check_completed_sound _ (mkR fs false) rs' eq_refl (exec_executed _ _ _ _ E) Hck)
+    as [l1 [v [l2 [rsv [El [Hv [Hx Hall]]]]]]].
+  assert (Hn : verify_n v = n).
+  { assert (Hin : In v plan).
+    { assert (In v (firstn (nexec pl (mkR fs false)) pl)) by (rewrite El; apply in_or_app; right; left; reflexivity).
+      apply In_firstn in H. subst pl. destruct cr; [apply In_firstn in H|]; exact H. }
+    pose proof (call_plan_vn _ _ _ _ _ _ _ _ _ _ Hp) as Hvn. rewrite forallb_forall in Hvn.
+    specialize (Hvn v Hin). unfold vn_ok in Hvn. rewrite Hv in Hvn. cbn in Hvn. apply Nat.eqb_eq. exact Hvn. }
+  exists l1, v, l2, rsv. rewrite Hn in Hall. auto.
 Qed.
 
 (* NP2.1: a forced re-run on an object that is still usable completes with valid lf output, whatever
@@ -1693,3 +1930,69 @@ Proof.
   rewrite Hx in H. rewrite Nat.ltb_irrefl in H. inversion H; subst ob' o; clear H.
   cbn [out_outcome out_fs]. repeat split; auto.
 Qed.
+
+(* ====================================================================== *)
+(* Histories of runs with a fresh converter each                             *)
+(* ====================================================================== *)
+Lemma run_once_inv : forall kd n w fs r, inv kd n fs -> inv kd n (out_fs (run_once kd n w fs r)).
+Proof.
+  intros kd n w fs r Hinv. unfold run_once.
+  destruct (input_state kd n fs (r_target r)) eqn:Ein; try exact Hinv.
+  destruct (input_present_orig _ _ _ _ Ein) as [Hm [HB HC]].
+  destruct (r_target r) eqn:Et; try exact Hinv.
+  - (* TBin *)
+    assert (Ho : orig_ok fs) by (left; auto).
+    destruct kd; try exact Hinv.
+    + destruct (r_sub r) as [sub|].
+      * destruct (sub_ok sub n) eqn:Eok; [|exact Hinv].
+        destruct (go_out (plan24s sub n w (r_opts r) (r_ow r) (r_corrupt r) (target_form TBin) fs) (r_crash r) fs
+                  (if already24s (r_ow r) fs sub then 0%Z else 1%Z) (if already24s (r_ow r) fs sub then 1%Z else 0%Z))
+          as [c [rs' [Hx [Hfs _]]]].
+        rewrite Hfs. exact (proj1 (np24s_prefix _ _ _ _ _ _ _ _ _ _ (sub_ok_NoDup _ _ Eok) (or_introl eq_refl) Ho Hinv Hx)).
+      * destruct (go_out (plan24 n w (r_opts r) (r_ow r) (r_corrupt r) (target_form TBin) fs) (r_crash r) fs
+                  (if already24 (r_ow r) fs n then 0%Z else 1%Z) (if already24 (r_ow r) fs n then 1%Z else 0%Z))
+          as [c [rs' [Hx [Hfs _]]]].
+        rewrite Hfs. exact (proj1 (np24_prefix _ _ _ _ _ _ _ _ _ (or_introl eq_refl) Ho Hinv Hx)).
+    + destruct (go_out (plan21 w (r_opts r) (r_ow r) (target_form TBin) fs) (r_crash r) fs
+                  (if already21 (r_ow r) fs then 0%Z else 1%Z) (if already21 (r_ow r) fs then 1%Z else 0%Z))
+        as [c [rs' [Hx [Hfs _]]]].
+      rewrite Hfs. exact (proj1 (np21_prefix _ _ _ _ _ _ _ _ _ Ho Hinv (fun _ => HB eq_refl) Hx)).
+  - (* TCbin *)
+    assert (Ho : orig_ok fs) by (right; auto).
+    destruct kd; try exact Hinv.
+    + destruct (r_sub r) as [sub|].
+      * destruct (sub_ok sub n) eqn:Eok; [|exact Hinv].
+        destruct (go_out (plan24s sub n w (r_opts r) (r_ow r) (r_corrupt r) (target_form TCbin) fs) (r_crash r) fs
+                  (if already24s (r_ow r) fs sub then 0%Z else 1%Z) (if already24s (r_ow r) fs sub then 1%Z else 0%Z))
+          as [c [rs' [Hx [Hfs _]]]].
+        rewrite Hfs. exact (proj1 (np24s_prefix _ _ _ _ _ _ _ _ _ _ (sub_ok_NoDup _ _ Eok) (or_intror eq_refl) Ho Hinv Hx)).
+      * destruct (go_out (plan24 n w (r_opts r) (r_ow r) (r_corrupt r) (target_form TCbin) fs) (r_crash r) fs
+                  (if already24 (r_ow r) fs n then 0%Z else 1%Z) (if already24 (r_ow r) fs n then 1%Z else 0%Z))
+          as [c [rs' [Hx [Hfs _]]]].
+        rewrite Hfs. exact (proj1 (np24_prefix _ _ _ _ _ _ _ _ _ (or_intror eq_refl) Ho Hinv Hx)).
+    + destruct (go_out (plan21 w (r_opts r) (r_ow r) (target_form TCbin) fs) (r_crash r) fs
+                  (if already21 (r_ow r) fs then 0%Z else 1%Z) (if already21 (r_ow r) fs then 1%Z else 0%Z))
+        as [c [rs' [Hx [Hfs _]]]].
+      rewrite Hfs.
+      assert (Htf : target_form TCbin = FBin -> fs (PFile Orig FBin) = Complete) by (cbn; discriminate).
+      exact (proj1 (np21_prefix _ _ _ _ _ _ _ _ _ Ho Hinv Htf Hx)).
+Qed.
+
+Lemma init_inv : forall kd n c, inv kd n (init_fs c).
+Proof.
+  intros. unfold inv, recoverable, orig_ok. cbn. destruct c; repeat split; try discriminate; auto.
+Qed.
+
+Lemma history_inv : forall kd n w h fs, inv kd n fs -> inv kd n (state_after kd n w fs h).
+Proof.
+  intros kd n w. induction h as [|r h IH]; intros fs H; cbn; [exact H|].
+  apply IH. apply run_once_inv. exact H.
+Qed.
+
+Lemma original_recoverable : forall kd n w c h,
+  let fs := state_after kd n w (init_fs c) h in
+  fs (PFile Orig FMeta) = Complete /\ recoverable kd n fs.
+Proof.
+  intros. destruct (history_inv kd n w h (init_fs c) (init_inv kd n c)) as [A [_ B]]. auto.
+Qed.
+
